@@ -97,6 +97,24 @@ type wConfig struct {
 	Calls      bool  `json:"calls,omitempty"`
 	CallTimeout int  `json:"calltimeout,omitempty"`
 	Anon       []int `json:"anon,omitempty"` // indices of users that log in at anonymous level
+	Media      bool  `json:"media,omitempty"` // configure the fs media handler (sticky per process)
+}
+
+var wMediaOn bool
+
+func wEnsureMedia() {
+	if wMediaOn {
+		return
+	}
+	dir, err := os.MkdirTemp(os.Getenv("VERIF_OUT"), "uploads")
+	if err != nil {
+		panic(err)
+	}
+	if err := store.Store.UseMediaHandler("fs", `{"upload_dir":"`+dir+`"}`); err != nil {
+		panic(err)
+	}
+	globals.maxFileUploadSize = 1 << 16
+	wMediaOn = true
 }
 
 type wUser struct {
@@ -217,6 +235,9 @@ func wBoot(cfg wConfig) *wWorld {
 		if cfg.CallTimeout > 0 {
 			globals.callEstablishmentTimeout = cfg.CallTimeout
 		}
+	}
+	if cfg.Media {
+		wEnsureMedia()
 	}
 	wTap.reset(!cfg.NoPush)
 	usersInit()
